@@ -763,9 +763,13 @@ def run_cases(ctx, v, cases):
 
 def compare(ctx, stream, case, m, impl, exc):
     """complete canonical issue lists; returns True when compared"""
-    if not m.get("stable", True):
-        # hypothesis of C01.issue_indices_in_tag (C03's fixpoint): never observed false on a bundled schema
-        ctx.disagree("LookupStable (re-resolving an identified tag from its short form changes nothing)", case, False, True)
+    ctx.count("index-theorem:hypothesis LookupStable " + ("holds" if m.get("stable", True) else "FAILS"))
+    if not m.get("inrange", True):
+        # conclusion of C01.issue_indices_in_tag evaluated on the model's issues (= the implementation's when compared)
+        if not detect_variant()["defCharRelocate"] and "def" in case["text"].casefold():
+            ctx.count("index-theorem:pair outside its tag (Def value on the unchanged code, see fixes/C01_def_value_char_index.diff)")
+        else:
+            ctx.disagree("index pair inside its tag (C01.issue_indices_in_tag)", case, False, True)
     if m["unmodelled"]:
         ctx.count(f"{stream}:skipped-unmodelled")
         return False
